@@ -14,9 +14,18 @@ def mutlike(ty):
     return bool(MUTLIKE_RE.search(ty))
 
 
+def node_of(pl):
+    """slice node of a place: (local, first field) or the bare local"""
+    for p in pl['p']:
+        if isinstance(p, dict) and 'f' in p: return (pl['l'], p['f'])
+    return pl['l']
+
+
 class Graph:
-    """edges[dst] = list of edges; an edge is a tuple
-         ('L', src_local, fields(list of (adt,field)), label)
+    """Def-use graph, field-sensitive at the first field of every local.
+    Nodes: int local (whole value) or (local, first_field).
+    edges[dst_node] = list of edges; an edge is a tuple
+         ('L', src_node, fields(list of (adt,field)), label)
          ('C', const_text, fnpath_or_None, label)
          ('F', callee_name, Call, label)       # value produced by / mutated by a call
          ('K', closure_path, None, label)      # closure value
@@ -24,12 +33,18 @@ class Graph:
     def __init__(self, body):
         self.body = body
         self.edges = collections.defaultdict(list)
+        self.field_nodes = collections.defaultdict(set)   # local -> {(local, f)}
         self._build()
+
+    def _n(self, pl):
+        n = node_of(pl)
+        if isinstance(n, tuple): self.field_nodes[n[0]].add(n)
+        return n
 
     def _add_op(self, dst, o, lab=None):
         if o['k'] in ('copy', 'move'):
             pl = o['pl']
-            self.edges[dst].append(('L', pl['l'], fields_of_place(pl), lab))
+            self.edges[dst].append(('L', self._n(pl), fields_of_place(pl), lab))
             for p in pl['p']:
                 if isinstance(p, dict) and 'ix' in p:
                     self.edges[dst].append(('L', p['ix'], [], 'index'))
@@ -38,21 +53,21 @@ class Graph:
 
     def _build(self):
         b = self.body; E = self.edges; T = b.locals
+        callmap = {c.bb: c for c in b.calls}
         for bi in sorted(b.live):
             blk = b.blocks[bi]
             for st in blk['st']:
                 if 'dst' not in st: continue
-                dpl = st['dst']; d = dpl['l']; rv = st['rv']; k = rv['k']
-                # index locals used in destination projections
+                dpl = st['dst']; d = self._n(dpl); dl = dpl['l']; rv = st['rv']; k = rv['k']
                 for p in dpl['p']:
                     if isinstance(p, dict) and 'ix' in p: E[d].append(('L', p['ix'], [], 'index'))
                 if k in ('ref', 'rawptr', 'discr'):
-                    pl = rv['pl']
-                    E[d].append(('L', pl['l'], fields_of_place(pl), k))
+                    pl = rv['pl']; src = self._n(pl)
+                    E[d].append(('L', src, fields_of_place(pl), k))
                     for p in pl['p']:
                         if isinstance(p, dict) and 'ix' in p: E[d].append(('L', p['ix'], [], 'index'))
                     if k != 'discr' and (rv.get('mut') or k == 'rawptr'):
-                        E[pl['l']].append(('L', d, [], 'mutref-back'))
+                        E[src].append(('L', d, [], 'mutref-back'))
                     continue
                 ops = rv.get('ops', [])
                 for i, o in enumerate(ops):
@@ -64,41 +79,39 @@ class Graph:
                     elif k == 'un': lab = 'un:' + rv['op']
                     self._add_op(d, o, lab)
                     # aliasing copies of &mut-like values: writes through the copy reach the source
-                    if o['k'] in ('copy', 'move') and mutlike(T[d]) and mutlike(T[o['pl']['l']]):
-                        E[o['pl']['l']].append(('L', d, [], 'alias-back'))
+                    if o['k'] in ('copy', 'move') and mutlike(T[dl]) and mutlike(T[o['pl']['l']]):
+                        E[self._n(o['pl'])].append(('L', d, [], 'alias-back'))
                 if k == 'cast' and rv['to'].startswith('*'):
                     for o in ops:
-                        if o['k'] in ('copy', 'move'): E[o['pl']['l']].append(('L', d, [], 'rawptr-alias-back'))
+                        if o['k'] in ('copy', 'move'): E[self._n(o['pl'])].append(('L', d, [], 'rawptr-alias-back'))
                 if k == 'agg' and rv['adt'].startswith('closure:'):
                     E[d].append(('K', rv['adt'][8:], None, None))
                     for o in ops:
                         if o['k'] in ('copy', 'move') and mutlike(T[o['pl']['l']]):
-                            E[o['pl']['l']].append(('L', d, [], 'closure-capture-back'))
+                            E[self._n(o['pl'])].append(('L', d, [], 'closure-capture-back'))
                 if k == 'other':
                     E[d].append(('C', rv.get('dbg', '?'), None, 'other'))
             t = blk['term']
             if t['k'] == 'call':
-                d = t['dst']['l']; name = t['r'] or t['f']
-                call = None
-                for c in b.calls:
-                    if c.bb == bi: call = c; break
+                d = self._n(t['dst']); dl = t['dst']['l']; name = t['r'] or t['f']
+                call = callmap.get(bi)
                 for o in t['args']:
                     self._add_op(d, o, 'call:' + name)
                 E[d].append(('F', name, call, None))
-                arglocals = [o['pl']['l'] for o in t['args'] if o['k'] in ('copy', 'move')]
                 for o in t['args']:
                     if o['k'] not in ('copy', 'move'): continue
                     l = o['pl']['l']
                     if not mutlike(T[l]): continue
+                    n = self._n(o['pl'])
                     for o2 in t['args']:
-                        if o2 is not o: self._add_op(l, o2, 'callarg:' + name)
-                    E[l].append(('F', name, call, 'callarg'))
-                    if mutlike(T[d]):
-                        E[l].append(('L', d, [], 'derived-back'))
+                        if o2 is not o: self._add_op(n, o2, 'callarg:' + name)
+                    E[n].append(('F', name, call, 'callarg'))
+                    if mutlike(T[dl]):
+                        E[n].append(('L', d, [], 'derived-back'))
 
 
 class Slice:
-    __slots__ = ('fields', 'root_fields', 'calls', 'call_objs', 'consts', 'params', 'locals', 'closures', 'fnconsts')
+    __slots__ = ('fields', 'root_fields', 'calls', 'call_objs', 'consts', 'params', 'locals', 'closures', 'fnconsts', 'nodes')
 
     def __init__(self):
         self.fields = set()        # (adt, field)
@@ -110,6 +123,7 @@ class Slice:
         self.params = set()
         self.locals = set()
         self.closures = set()
+        self.nodes = set()
 
     def merge_summary(self, s):
         self.fields |= s.fields; self.calls |= s.calls; self.consts |= s.consts
@@ -137,42 +151,54 @@ class Slicer:
         return g
 
     def backslice(self, body, start_locals, depth=None, stop_locals=()):
+        """start_locals: locals (ints) or nodes (local, field)"""
         depth = self.depth if depth is None else depth
-        g = self.graph(body); E = g.edges
+        g = self.graph(body); E = g.edges; FN = g.field_nodes
         s = Slice()
-        seen = set(start_locals); work = list(start_locals)
+        seen = set(); work = []
+        def push(n):
+            if n in seen: return
+            l = (n[1] if n[0] == 'w' else n[0]) if isinstance(n, tuple) else n
+            if l in stop_locals: return
+            seen.add(n); work.append(n)
+        for n in start_locals: push(n)
         while work:
-            l = work.pop()
+            n = work.pop()
+            if isinstance(n, tuple) and n[0] == 'w':
+                l = n[1]; n = l               # definitions of the whole value only (no sibling fields)
+            elif isinstance(n, tuple):
+                l = n[0]
+                push(('w', l))                # a write to the whole value reaches the field
+            else:
+                l = n
+                for fn_ in FN.get(l, ()): push(fn_)   # the whole value contains every field
             if 1 <= l <= body.argc: s.params.add(l)
-            for e in E.get(l, ()):
+            for e in E.get(n, ()):
                 k = e[0]
                 if k == 'L':
-                    src = e[1]
+                    src = e[1]; sl = src[0] if isinstance(src, tuple) else src
                     for af in e[2]:
                         s.fields.add(af)
-                    if 1 <= src <= body.argc:
+                    if 1 <= sl <= body.argc:
                         for af in e[2][:1]:
-                            s.root_fields.add((src, af[0], af[1]))
-                    if body.kind == 'closure' and src == 1:
-                        pass
-                    if src not in seen and src not in stop_locals:
-                        seen.add(src); work.append(src)
+                            s.root_fields.add((sl, af[0], af[1]))
+                    push(src)
                 elif k == 'C':
                     s.consts.add(e[1])
                     if e[2]:
                         s.fnconsts.add(e[2])
-                        # a function item used as a value (e.g. passed to map): include its summary
                         self._merge_callee(s, e[2], depth)
                 elif k == 'F':
                     s.calls.add(e[1])
-                    if e[2] is not None: s.call_objs.append(e[2])
                     if e[2] is not None:
+                        s.call_objs.append(e[2])
                         self._merge_callee(s, e[2].path, depth, e[2].name)
                 elif k == 'K':
                     s.closures.add(e[1])
                     if depth > 0:
                         s.merge_summary(self.whole_body(e[1], depth - 1))
-        s.locals = seen
+        s.locals = {((n[1] if n[0] == 'w' else n[0]) if isinstance(n, tuple) else n) for n in seen}
+        s.nodes = seen
         return s
 
     def _merge_callee(self, s, path, depth, name=None):
@@ -237,7 +263,7 @@ class Slicer:
     def slice_operand(self, body, operand, depth=None):
         s = Slice()
         if operand['k'] in ('copy', 'move'):
-            s = self.backslice(body, [operand['pl']['l']], depth)
+            s = self.backslice(body, [node_of(operand['pl'])], depth)
             for af in fields_of_place(operand['pl']): s.fields.add(af)
             l = operand['pl']['l']
             if 1 <= l <= body.argc:
